@@ -208,6 +208,15 @@ func main() {
 			err = corr.CloseDuringBurst(res, *seed)
 		}
 		if err == nil {
+			// no call ever observes another call's result: an answer of a handler that outlived its connection
+			// must not reach the call that re-uses its request id on the next connection (F18; shared with C16)
+			for _, k := range []string{"rst", "fin"} {
+				if err == nil {
+					err = c16.StaleAnswer(d, res, *seed, k, 7000)
+				}
+			}
+		}
+		if err == nil {
 			err = corr.SkewedSubscription(res, *seed)
 		}
 		if err == nil {
@@ -260,6 +269,9 @@ func main() {
 			err = corr.NotifyThenClose(res, *seed)
 		}
 		if err == nil {
+			err = corr.NoErrorResultOnce(res, *seed)
+		}
+		if err == nil {
 			err = corr.NotifyCancelledCtx(res, *seed)
 		}
 	case "C18":
@@ -285,6 +297,13 @@ func main() {
 		err = c05.RunBackoff(d, res, thorough, corpus)
 		if err == nil && *replay == "" {
 			err = c05.Scenarios(d, res, *seed, thorough)
+		}
+		if err == nil && *replay == "" {
+			err = corr.MidFrameOutage(d, res, *seed)
+		}
+		if err == nil && *replay == "" {
+			// a link that dies silently while the client is writing: the client must notice, redial and heal
+			err = corr.SilentStall(d, res, *seed)
 		}
 	case "C10":
 		res.Rule = "hostile frames from the property's descriptor grid (control methods x params shapes x element values x id types, responses never requested, calls of every error class, undecodable/binary/empty buffers) sent singly and in random sequences to a real server and, from a fake server, to a real client, each in a child process; body sizes L-1..L+2 for 11 limits; distinct = distinct frame sequence; every case is non-trivial (hostile input reaches the executor)"
